@@ -199,7 +199,8 @@ def gen_case(rng):
     if r < 0.68:
         # both sources present: an attribute that carries no usable hint and a plain header that does
         attr = rng.choice([None, {"t": "none"}, {"t": "str", "v": rng.choice(["", " ", "soon", "abc", "-", "nan", "None"])}])
-        return {"kind": "coerce", "attr": attr, "via_response": rng.random() < 0.4,
+        via = rng.random() < 0.5
+        return {"kind": "coerce", "attr": attr, "via_response": via, "own_empty": rng.choice([None, "dict", "list", "tuple"]) if via else None,
                 "headers": {"kind": rng.choice(["dict", "mapping", "iterable", "getter", "getter_items"]),
                             "items": [[NAME, {"t": "str", "v": str(rng.choice([0, 1, 7, 120, rng.randint(0, 10**6)]))}]]}}
     keys = rng.sample(["Retry-After", "retry-after", "RETRY-AFTER", "Retry-after", "X-Other", "retry_after", "Retry-After "], rng.randint(0, 3))
@@ -208,7 +209,9 @@ def gen_case(rng):
     if kind in ("dict", "mapping", "iterable") and not items:
         kind = "none"          # an empty container is falsy: `headers or response.headers`
     attr = None if rng.random() < 0.5 else gen_value(rng)
-    return {"kind": "coerce", "attr": attr, "headers": {"kind": kind, "items": items}, "via_response": rng.random() < 0.4}
+    via = rng.random() < 0.4
+    return {"kind": "coerce", "attr": attr, "headers": {"kind": kind, "items": items}, "via_response": via,
+            "own_empty": rng.choice([None, None, "dict", "list", "tuple"]) if via else None}
 
 
 def oracle(c, o):
@@ -302,6 +305,46 @@ def composition(chk, ok, cases, obs):
                        "observed": o2[i], "driver": "strategies_driver", "disagreements": len(failing)}, no_input=True)
 
 
+def policy_part(chk):
+    """the hint travels classifier -> policy -> strategy -> sleeper: through Retry / RetryPolicy / Policy (sync and async) with
+    http_retry_after_classifier and retry_after_or, the sleeper must receive a delay in [min(hint, remaining), hint + jitter_s]"""
+    rng = chk.rng
+    cases = []
+    headers = ["0", "000", " 0 ", "1", "5", "120", "Wed, 21 Oct 2015 07:28:00 GMT", None]
+    for i in range(160 if chk.tier == "quick" else 1500):
+        h = rng.choice(headers)
+        attr = rng.choice([None, None, None, 0, 0.0, 3, -2, "0", "7"]) if h is None or rng.random() < 0.2 else None
+        cases.append({"header": h, "attr": attr, "fallback": rng.choice([64 * 9, 64 * 2, 32]), "jitter": rng.choice([0, 0, 32, 64]),
+                      "deadline": rng.choice([10**6, 64 * 60, 64 * 3]), "async": rng.random() < 0.5,
+                      "entry": rng.choice(["retry", "retrypolicy", "policy"]), "r": [rng.choice([0, 1, 3]), 4]})
+    res = common.run_driver("c20_policy_driver", cases, jobs=4)
+    bad = None
+    zero = 0
+    for c, r in zip(cases, res):
+        if r["end"][0] != "return":
+            bad = bad or (c, r, f"the call ended with {r['end'][:3]}")
+            continue
+        h = r["hint"]
+        if not (isinstance(h, list) and len(r["delays"]) == 1 and isinstance(r["delays"][0], int)):
+            if h is None and len(r["delays"]) == 1:
+                continue
+            bad = bad or (c, r, f"hint {h}, sleeper calls {r['delays']}")
+            continue
+        hs = Fraction(h[0], h[1]) * 64          # ticks
+        zero += hs == 0
+        d, rem, j = r["delays"][0], c["deadline"], c["jitter"]
+        if not (min(hs, rem) <= d <= hs + j):
+            bad = bad or (c, r, f"{'async ' if c['async'] else ''}{c['entry']}.call: the classifier's hint is {float(hs) / 64} s (Retry-After "
+                                f"{c['header']!r}, retry_after {c['attr']!r}), jitter_s {j / 64} s, {rem / 64} s remain, but the sleeper got {d / 64} s")
+    chk.coverage["policy_end_to_end"] = {"calls": len(cases), "zero_hints": zero, "entries": ["retry", "retrypolicy", "policy"],
+                                         "note": "classifier -> policy -> retry_after_or -> sleeper on the implementation; oracle only "
+                                                 "(the model-level statement is C20_honoured)"}
+    chk.coverage["evaluations"] = chk.coverage.get("evaluations", 0) + len(cases)
+    if bad:
+        c, r, m = bad
+        chk.violation({"kind": "oracle", "part": "policy", "what": m, "policy_case": c, "observed": r, "driver": "c20_policy_driver"})
+
+
 def run(chk):
     chk.assumptions += [
         "email.utils.parsedate_to_datetime raises only TypeError/ValueError/IndexError (trusted; fuzzed here)",
@@ -356,11 +399,19 @@ def run(chk):
                        "found no violated clause", "case": cases[i], "observed": obs[i], "driver": "retry_after_driver",
                        "disagreements": len(failing)}, no_input=True)
     composition(chk, ok, cases, obs)
+    policy_part(chk)
 
 
 def replay(path):
     import json
     r = json.load(open(path))
+    if "policy_case" in r:
+        o = common.run_driver("c20_policy_driver", [r["policy_case"]])[0]
+        print("observed:", o)
+        hs = o["hint"]
+        okk = isinstance(hs, list) and len(o["delays"]) == 1 and min(Fraction(hs[0], hs[1]) * 64, r["policy_case"]["deadline"]) <= o["delays"][0] <= Fraction(hs[0], hs[1]) * 64 + r["policy_case"]["jitter"]
+        print("oracle:", "holds" if okk or hs is None else "violated")
+        return 0 if okk or hs is None else 1
     if "strategy_case" in r:
         import importlib
         c18 = importlib.import_module("props.C18")
